@@ -45,12 +45,28 @@ inline void Jitter(u32 n) {
 
 enum SrcKind { kVal = 0, kErr = 1, kExc = 2 };
 
+// A coroutine between the promise and the awaited future: the awaited future is then completed from a coroutine's
+// final suspend (the awaiter is entered through Next(), with symmetric transfer where enabled) instead of from
+// Promise::Set (entered through Here()).
+inline yaclib::Future<Tracked, MyError> Relay(yaclib::Future<Tracked, MyError> in) {
+  co_await yaclib::Await(in);
+  auto r = std::move(in).Touch();
+  if (r.State() == yaclib::ResultState::Value) {
+    co_return std::move(r).Value();
+  }
+  if (r.State() == yaclib::ResultState::Error) {
+    co_return std::move(r).Error();
+  }
+  std::rethrow_exception(std::move(r).Exception());
+}
+
 struct Src {
   int kind = 0;
   int code = 0;
   int when = 0;  // 0 ready before the coroutine starts, 1 racing, 2 later (sleep)
   u32 jit = 0;
   bool shared = false;
+  bool via_coro = false;  // unique only: completed by a relaying coroutine's final suspend
   u64 set_call = 0;
   int side = 0;
   yaclib::Future<Tracked, MyError> uf;
@@ -65,7 +81,7 @@ struct Src {
       sp = std::move(p);
     } else {
       auto [f, p] = yaclib::MakeContract<Tracked, MyError>();
-      uf = std::move(f);
+      uf = via_coro ? Relay(std::move(f)) : std::move(f);
       up = std::move(p);
     }
   }
@@ -408,6 +424,7 @@ void CoroCase(Ctx& ctx, int coro_kind, bool stopped_target) {
     s.when = static_cast<int>(ctx.rng.Below(3));
     s.jit = ctx.rng.Below(8);
     s.shared = ctx.rng.Below(3) == 0;
+    s.via_coro = !s.shared && ctx.rng.Below(3) == 0;
   }
   std::vector<std::vector<Step>> plans(static_cast<std::size_t>(ncoro));
   // unique sources are consumed by at most one step of one coroutine; shared ones may be awaited by everybody
